@@ -321,6 +321,32 @@ func optionsCase(r *rand.Rand) string {
 	return s + " hex=" + hex.EncodeToString(data)
 }
 
+// thorough tier: every jsonline file of at most five tokens, one pass and read again and again; every pair of `headers`
+// option strings of at most three tokens
+func round2Exhaustive() []string {
+	var out []string
+	obj := `{"host":"h","uri":"/a","tag":"t"}`
+	enumSeqs([]string{obj, "[", "]", ",", "\n", "{", "x"}, 5, func(s string) {
+		h := hex.EncodeToString([]byte(s))
+		out = append(out, "k=ammo fmt=jsonline pre=0 passes=1 limit=0 hex="+h, "k=ammo fmt=jsonline pre=0 passes=0 limit=3 hex="+h)
+	})
+	enumSeqs([]string{obj, "[", "]", ","}, 5, func(s string) {
+		h := hex.EncodeToString([]byte(s))
+		out = append(out, "k=ammo fmt=jsonline pre=1 passes=2 limit=0 hex="+h)
+	})
+	var hs []string
+	enumSeqs([]string{"[", "]", ":", "a"}, 3, func(s string) { hs = append(hs, hex.EncodeToString([]byte(s))) })
+	hs = hs[1:] // the empty string cannot be written in the list
+	file := hex.EncodeToString([]byte("/a t\n"))
+	for _, a := range hs {
+		out = append(out, "k=ammo fmt=uri pre=0 passes=1 limit=0 hdrs="+a+" hex="+file)
+		for _, b := range hs {
+			out = append(out, "k=ammo fmt=uri pre=0 passes=1 limit=0 hdrs="+a+","+b+" hex="+file)
+		}
+	}
+	return out
+}
+
 func round2Cases(r *rand.Rand, tier string) []string {
 	nJl, nOpt, nFlt := 500, 400, 60
 	if tier == "thorough" {
@@ -335,6 +361,9 @@ func round2Cases(r *rand.Rand, tier string) []string {
 	}
 	for i := 0; i < nFlt; i++ {
 		out = append(out, fltCase(r))
+	}
+	if tier == "thorough" {
+		out = append(out, round2Exhaustive()...)
 	}
 	return out
 }
